@@ -10,7 +10,8 @@ from vf.core import Prop, Result
 from vf.props.c05 import NAMES, parse_text, sexp_counts
 
 API_NAMES = ["a", "b", "c", "d", "clk", "data", "q", "sel", "Top", "U1", "n_1", "x y", "a.b", "3d",
-             "w/e", "net$1", "Q", "B", "row[0].q", "m[2]x", "Sel", "SEL", "Data", "DATA", "TOP", "_u", "$v"]
+             "w/e", "net$1", "Q", "B", "row[0].q", "m[2]x", "Sel", "SEL", "Data", "DATA", "TOP", "_u", "$v",
+             "L" * 255, "k" + "9" * 253]
 
 
 def edif_view(nl):
@@ -93,7 +94,8 @@ class C03(Prop):
         return gen_ir.Cfg(unnamed=False, alphabet=API_NAMES if api else NAMES, max_defs=7 if big else 5,
                           max_children=4, max_width=4 if big else 3, share=True, top="always",
                           lib_monotone=True, reorder=api, top_modes=["standalone", "definition"] if api
-                          else ["standalone"], data_values="edif", undefined_dir=True, late=api)
+                          else ["standalone"], data_values="edif", undefined_dir=True, late=api,
+                          bundle_alphabet=[n for n in (API_NAMES if api else NAMES) if len(n) < 200])
 
     def strategy(self, tier):
         api = st.fixed_dictionaries({"mode": st.sampled_from(["api-DEFAULT", "api-EDIF"]),
